@@ -830,7 +830,7 @@ void recordVariablesUnitsNames(const ComponentPtr &component, VariableUnitsNames
     }
 }
 
-StringStringMap transferUnitsRenamingIfRequired(const ModelPtr &sourceModel, const ModelPtr &targetModel, const UnitsPtr &units, const ComponentPtr &component)
+StringStringMap transferUnitsRenamingIfRequired(const ModelPtr &sourceModel, const ModelPtr &targetModel, const UnitsPtr &units, const ComponentPtr &component, const StringStringMap &resolvedReferences = {})
 {
     StringStringMap changedNames;
 
@@ -839,10 +839,17 @@ StringStringMap transferUnitsRenamingIfRequired(const ModelPtr &sourceModel, con
     if (targetUnits == nullptr) {
         for (size_t unitIndex = 0; unitIndex < units->unitCount(); ++unitIndex) {
             std::string reference = units->unitAttributeReference(unitIndex);
-            if (!reference.empty() && !isStandardUnitName(reference) && sourceModel->hasUnits(reference)) {
+            // The references of the units are names of the source model. The caller may already know what some of them are
+            // called in the target model: those must not be looked up (by their new name) in the source model again.
+            auto resolvedReference = resolvedReferences.find(reference);
+            if (resolvedReference != resolvedReferences.end()) {
+                units->setUnitAttributeReference(unitIndex, resolvedReference->second);
+            } else if (!reference.empty() && !isStandardUnitName(reference) && sourceModel->hasUnits(reference)) {
                 auto clonedChildUnits = sourceModel->units(reference)->clone();
-                transferUnitsRenamingIfRequired(sourceModel, targetModel, clonedChildUnits, component);
-                units->setUnitAttributeReference(unitIndex, clonedChildUnits->name());
+                auto childChangedNames = transferUnitsRenamingIfRequired(sourceModel, targetModel, clonedChildUnits, component);
+                auto childChange = childChangedNames.find(reference);
+                // Either the child units were added (possibly under a new name) or equal units exist under another name.
+                units->setUnitAttributeReference(unitIndex, (childChange != childChangedNames.end()) ? childChange->second : clonedChildUnits->name());
             }
         }
 
@@ -1045,6 +1052,7 @@ ComponentPtr flattenComponent(const ComponentEntityPtr &parent, ComponentPtr &co
         applyEquivalenceMapToModel(rebasedMap, flatModel);
 
         StringStringMap unitNamesToReplace;
+        StringStringMap libraryNamesInFlatModel;
         for (const auto &units : uniqueRequiredUnits) {
             // If the required units are imported units, we will resolve those units here.
             size_t unitsIndex = 0;
@@ -1064,15 +1072,19 @@ ComponentPtr flattenComponent(const ComponentEntityPtr &parent, ComponentPtr &co
 
             auto replacementUnits = (flattenedUnits != nullptr) ? flattenedUnits->clone() : units;
 
-            for (size_t unitIndex = 0; unitIndex < replacementUnits->unitCount(); ++unitIndex) {
-                const std::string ref = replacementUnits->unitAttributeReference(unitIndex);
-                for (const auto &entry : unitNamesToReplace) {
-                    if (ref == entry.first) {
-                        replacementUnits->setUnitAttributeReference(unitIndex, entry.second);
-                    }
+            // The units these units refer to come earlier in the list, or are an alias of units that do: what they are
+            // called in the flat model is known (libraryNamesInFlatModel), under the name the library has for them.
+            StringStringMap resolvedReferences = libraryNamesInFlatModel;
+            for (const auto &alias : aliasedUnitsNames) {
+                auto representative = libraryNamesInFlatModel.find(alias.second);
+                if (representative != libraryNamesInFlatModel.end()) {
+                    resolvedReferences.emplace(alias.first, representative->second);
                 }
             }
-            StringStringMap changedNames = transferUnitsRenamingIfRequired(clonedImportModel, flatModel, replacementUnits, nullptr);
+            const std::string libraryName = replacementUnits->name();
+            StringStringMap changedNames = transferUnitsRenamingIfRequired(clonedImportModel, flatModel, replacementUnits, nullptr, resolvedReferences);
+            auto changedName = changedNames.find(libraryName);
+            libraryNamesInFlatModel.emplace(libraryName, (changedName != changedNames.end()) ? changedName->second : libraryName);
             if (!changedNames.empty()) {
                 unitNamesToReplace.merge(changedNames);
             }
